@@ -1,7 +1,7 @@
 CONSTANTS
   NameSeq <- N3
   Slots = {1, 2}
-  MaxNodes = 10
+  MaxNodes = 14
   MaxDepth = 4
   Actions <- ViewActions
   InitDeclared = 3
